@@ -24,19 +24,22 @@
 (* the values; a full page is compressed into one cell <<"z", values>>.    *)
 (*                                                                         *)
 (* Dev: D18 = the slow path re-encodes the partial last page in place,     *)
-(* over bytes that published page entries still describe.                  *)
+(* over bytes that published page entries still describe.  D37 = readers   *)
+(* take the placement snapshot before the page-index guard (matters when   *)
+(* the region relocates in between: Reloc = TRUE, model checking only).    *)
 (***************************************************************************)
 EXTENDS Integers, Sequences, FiniteSets, TLC, FiniteSetsExt, Json
 
-CONSTANTS Kind, PP, Batches, MaxWrites, Readers, MaxReads, ReadOps, PreLen, Dev, Depth, HistK
+CONSTANTS Kind, PP, Batches, MaxWrites, Readers, MaxReads, ReadOps, PreLen, Dev, Depth, HistK, Reloc
 
-VARIABLES cells, rlen, pages, pub, pguards, w, rd, dev, n, hist, last
-vars == <<cells, rlen, pages, pub, pguards, w, rd, dev, n, hist, last>>
+VARIABLES cells, rlen, pages, pub, pguards, w, rd, dev, n, hist, last, old, ext
+vars == <<cells, rlen, pages, pub, pguards, w, rd, dev, n, hist, last, old, ext>>
+\* cells = the region's current extent; old = the extents it has left (kept intact: nothing reuses them in this model); ext = Len(old)
 
 Raw == Kind = "raw"
 Junk == -1
-WIdle == [pc |-> "idle", k |-> 0, pushed |-> 0, spi |-> 0, trunc |-> 0, part |-> <<>>, fast |-> FALSE, vals |-> <<>>, stored |-> 0]
-RIdle == [pc |-> "idle", k |-> 0, op |-> "-", len |-> 0, snap |-> 0, pos |-> 0, to |-> 0, pgs |-> <<>>, dpage |-> 0, buf |-> <<>>, got |-> <<>>, maxlen |-> 0]
+WIdle == [pc |-> "idle", k |-> 0, pushed |-> 0, spi |-> 0, trunc |-> 0, part |-> <<>>, fast |-> FALSE, vals |-> <<>>, stored |-> 0, reloc |-> FALSE, newcells |-> <<>>]
+RIdle == [pc |-> "idle", k |-> 0, op |-> "-", len |-> 0, snap |-> 0, pos |-> 0, to |-> 0, pgs |-> <<>>, dpage |-> 0, buf |-> <<>>, got |-> <<>>, maxlen |-> 0, sext |-> 0]
 Writer == 0
 
 Min2(a, b) == IF a < b THEN a ELSE b
@@ -91,17 +94,22 @@ WStart ==
   /\ w.pc = "idle" /\ w.k < MaxWrites
   /\ \E b \in Batches :
        /\ w' = [WIdle EXCEPT !.k = w.k, !.pushed = b, !.stored = pub, !.pc = IF Raw THEN "w_data" ELSE "c_plan"]
-       /\ UNCHANGED <<cells, rlen, pages, pub, pguards, rd, dev>>
+       /\ UNCHANGED <<old, ext, cells, rlen, pages, pub, pguards, rd, dev>>
        /\ Log(Writer, "op", IF Raw THEN "mmap:R" ELSE "pages:R", "write", b, FALSE, 0)
 
 NewVals == [i \in 1..w.pushed |-> w.stored + i]
 
 \* ---- raw
+\* Reloc (TLC only, not replayed): the region may relocate for this write: the data goes to a new extent (old contents copied),
+\* the region's placement switches with the length update
 WData ==
   /\ w.pc = "w_data"
-  /\ cells' = PutCells(cells, w.stored, V(NewVals))
-  /\ w' = [w EXCEPT !.pc = "w_len"]
-  /\ UNCHANGED <<rlen, pages, pub, pguards, rd, dev>>
+  /\ \E rl \in (IF Reloc THEN BOOLEAN ELSE {FALSE}) :
+       IF rl THEN /\ w' = [w EXCEPT !.pc = "w_len", !.reloc = TRUE, !.newcells = PutCells(SubSeq(cells, 1, Min2(w.stored, Len(cells))), w.stored, V(NewVals))]
+                  /\ UNCHANGED cells
+             ELSE /\ cells' = PutCells(cells, w.stored, V(NewVals))
+                  /\ w' = [w EXCEPT !.pc = "w_len"]
+  /\ UNCHANGED <<old, ext, rlen, pages, pub, pguards, rd, dev>>
   /\ Log(Writer, "mmap:R", "regions:R", "write", w.pushed, FALSE, 0)
 
 WLen ==
@@ -109,7 +117,8 @@ WLen ==
   /\ rlen' = w.stored + w.pushed
   /\ pub' = w.stored + w.pushed
   /\ w' = [WIdle EXCEPT !.k = w.k + 1]
-  /\ UNCHANGED <<cells, pages, pguards, rd, dev>>
+  /\ IF w.reloc THEN old' = Append(old, cells) /\ cells' = w.newcells /\ ext' = ext + 1 ELSE UNCHANGED <<old, ext, cells>>
+  /\ UNCHANGED <<pages, pguards, rd, dev>>
   /\ Log(Writer, "regions:R", "op", "write", w.pushed, TRUE, 0)
 
 \* ---- compressed
@@ -122,40 +131,44 @@ CPlan ==
          fast == hasPart /\ page.raw /\ partial = page.n /\ partial + w.pushed < PP
      IN /\ w' = [w EXCEPT !.spi = spi, !.trunc = page.start, !.part = IF hasPart THEN <<page, partial>> ELSE <<>>, !.fast = fast,
                           !.pc = IF fast \/ ~hasPart THEN "c_data" ELSE "c_dec"]
-        /\ UNCHANGED <<cells, rlen, pages, pub, pguards, rd, dev>>
+        /\ UNCHANGED <<old, ext, cells, rlen, pages, pub, pguards, rd, dev>>
         /\ Log(Writer, "pages:R", "mmap:R", "write", w.pushed, FALSE, 0)
 
 CDecode ==
   /\ w.pc = "c_dec"
   /\ w' = [w EXCEPT !.vals = SubSeq(Decode(cells, w.part[1], rlen), 1, w.part[2]), !.pc = "c_data"]
-  /\ UNCHANGED <<cells, rlen, pages, pub, pguards, rd, dev>>
+  /\ UNCHANGED <<old, ext, cells, rlen, pages, pub, pguards, rd, dev>>
   /\ Log(Writer, "mmap:R", "mmap:R", "write", w.pushed, FALSE, 0)
 
 \* where the data goes: the fast path appends behind the raw page; the slow path re-encodes from the partial page's start
 \* (D18: in place; intended: behind everything the published index still describes)
 CData ==
   /\ w.pc = "c_data"
-  /\ IF w.fast
-     THEN LET at == w.part[1].start + w.part[1].c IN
-          /\ cells' = PutCells(cells, at, V(NewVals))
-          /\ w' = [w EXCEPT !.pc = "c_len", !.trunc = at + w.pushed]
+  /\ \E rl \in (IF Reloc THEN BOOLEAN ELSE {FALSE}) :
+     IF w.fast
+     THEN LET at == w.part[1].start + w.part[1].c
+              nc == PutCells(IF rl THEN SubSeq(cells, 1, Min2(at, Len(cells))) ELSE cells, at, V(NewVals)) IN
+          /\ IF rl THEN UNCHANGED cells ELSE cells' = nc
+          /\ w' = [w EXCEPT !.pc = "c_len", !.trunc = at + w.pushed, !.reloc = rl, !.newcells = IF rl THEN nc ELSE <<>>]
           /\ dev' = dev
      ELSE LET inplace == "D18" \in Dev \/ w.part = <<>>
               at == IF inplace THEN w.trunc ELSE NextStart(pages)
               enc == Encode(w.vals \o NewVals, at)
               oldEnd == IF w.part = <<>> THEN 0 ELSE w.part[1].start + w.part[1].c
-          IN /\ cells' = IF inplace /\ w.part # <<>> THEN Maybe(PutCells(cells, at, enc.cells), at + Len(enc.cells), oldEnd)
-                         ELSE PutCells(cells, at, enc.cells)
-             /\ w' = [w EXCEPT !.pc = "c_len", !.vals = enc.pages, !.trunc = at + Len(enc.cells)]
+              nc == PutCells(IF rl THEN SubSeq(cells, 1, Min2(at, Len(cells))) ELSE cells, at, enc.cells)
+          IN /\ IF rl THEN UNCHANGED cells
+                ELSE cells' = IF inplace /\ w.part # <<>> THEN Maybe(nc, at + Len(enc.cells), oldEnd) ELSE nc
+             /\ w' = [w EXCEPT !.pc = "c_len", !.vals = enc.pages, !.trunc = at + Len(enc.cells), !.reloc = rl, !.newcells = IF rl THEN nc ELSE <<>>]
              /\ dev' = IF "D18" \in Dev /\ w.part # <<>> THEN dev \cup {"D18"} ELSE dev
-  /\ UNCHANGED <<rlen, pages, pub, pguards, rd>>
+  /\ UNCHANGED <<old, ext, rlen, pages, pub, pguards, rd>>
   /\ Log(Writer, "mmap:R", "regions:R", "write", w.pushed, FALSE, 0)
 
 CLen ==
   /\ w.pc = "c_len"
   /\ rlen' = w.trunc
   /\ w' = [w EXCEPT !.pc = "c_pages"]
-  /\ UNCHANGED <<cells, pages, pub, pguards, rd, dev>>
+  /\ IF w.reloc THEN old' = Append(old, cells) /\ cells' = w.newcells /\ ext' = ext + 1 ELSE UNCHANGED <<old, ext, cells>>
+  /\ UNCHANGED <<pages, pub, pguards, rd, dev>>
   /\ Log(Writer, "regions:R", "pages:W", "write", w.pushed, FALSE, 0)
 
 CPages ==
@@ -165,7 +178,7 @@ CPages ==
               ELSE SubSeq(pages, 1, w.spi) \o w.vals
   /\ pub' = w.stored + w.pushed
   /\ w' = [WIdle EXCEPT !.k = w.k + 1]
-  /\ UNCHANGED <<cells, rlen, pguards, rd, dev>>
+  /\ UNCHANGED <<old, ext, cells, rlen, pguards, rd, dev>>
   /\ Log(Writer, "pages:W", "op", "write", w.pushed, TRUE, 0)
 
 \* the published length never exceeds what is readable: data in place, region long enough, page index covering it
@@ -181,7 +194,7 @@ Readable ==
 RLen(r) ==
   /\ "len" \in ReadOps /\ rd[r].pc = "idle" /\ rd[r].k < MaxReads
   /\ rd' = [rd EXCEPT ![r] = [RIdle EXCEPT !.k = rd[r].k + 1, !.maxlen = pub]]
-  /\ UNCHANGED <<cells, rlen, pages, pub, pguards, w, dev>>
+  /\ UNCHANGED <<old, ext, cells, rlen, pages, pub, pguards, w, dev>>
   /\ Log(r, "op", "op", "len", 0, TRUE, <<"len", pub, Readable>>)
 
 \* fold over [from, L) where L is the length this reader observed last: the closure is called once per element
@@ -190,17 +203,20 @@ RStart(r) ==
   /\ \E from \in {0, rd[r].maxlen - 1} :
        /\ rd' = [rd EXCEPT ![r] = [RIdle EXCEPT !.k = rd[r].k, !.op = "fold", !.len = rd[r].maxlen, !.pos = from, !.to = rd[r].maxlen,
                                                 !.pc = "r_snap", !.maxlen = rd[r].maxlen]]
-       /\ UNCHANGED <<cells, rlen, pages, pub, pguards, w, dev>>
+       /\ UNCHANGED <<old, ext, cells, rlen, pages, pub, pguards, w, dev>>
        /\ Log(r, "op", "meta:R", "fold", from, FALSE, 0)
 
 RSnap(r) ==
   /\ rd[r].pc = "r_snap"
-  /\ rd' = [rd EXCEPT ![r].snap = rlen, ![r].pc = "r_map"]
-  /\ UNCHANGED <<cells, rlen, pages, pub, pguards, w, dev>>
+  /\ rd' = [rd EXCEPT ![r].snap = rlen, ![r].sext = ext, ![r].pc = "r_map"]
+  /\ UNCHANGED <<old, ext, cells, rlen, pages, pub, pguards, w, dev>>
   /\ Log(r, "meta:R", "mmap:R", "fold", 0, FALSE, 0)
 
 Finish(r, got) == [RIdle EXCEPT !.k = rd[r].k + 1, !.maxlen = rd[r].maxlen]
 FoldObs(r, got) == <<"fold", rd[r].len, rd[r].pos - Len(got), got>>
+
+\* the extent a reader's placement snapshot points at
+RCells(se) == IF se = ext THEN cells ELSE old[se + 1]
 
 \* raw: element at pos read from the mapping (bounded by the placement snapshot), then the closure is called
 RawNext(r, lab) ==
@@ -209,20 +225,22 @@ RawNext(r, lab) ==
   THEN /\ rd' = [rd EXCEPT ![r] = Finish(r, x.got)]
        /\ UNCHANGED pguards
        /\ Log(r, lab, "op", "fold", 0, TRUE, FoldObs(r, x.got))
-  ELSE LET v == Val(Cell(cells, x.pos)) IN
+  ELSE LET v == Val(Cell(RCells(x.sext), x.pos)) IN
        /\ rd' = [rd EXCEPT ![r].got = Append(x.got, v), ![r].pos = x.pos + 1, ![r].pc = "r_yield"]
        /\ UNCHANGED pguards
        /\ Log(r, lab, "yield", "fold", 0, FALSE, 0)
 
 \* compressed: page holding pos decoded on first use (the page index is the one frozen by the reader's guard)
 CmpNext(r, lab, pgs, takeGuard) ==
-  LET x == rd[r] IN
+  LET x0 == rd[r]
+      \* intended: the placement is (re)read once the page-index guard is held; D37: the snapshot taken before the guard is used
+      x == IF takeGuard /\ "D37" \notin Dev THEN [x0 EXCEPT !.sext = ext] ELSE x0 IN
   IF x.pos >= x.to \/ (x.pos \div PP) >= Len(pgs)
   THEN /\ rd' = [rd EXCEPT ![r] = Finish(r, x.got)]
        /\ pguards' = IF takeGuard THEN pguards ELSE pguards - 1
        /\ Log(r, lab, "op", "fold", 0, TRUE, FoldObs(r, x.got))
   ELSE LET pi == x.pos \div PP
-           buf == IF x.dpage = pi + 1 /\ ~takeGuard THEN x.buf ELSE Decode(cells, pgs[pi + 1], x.snap)
+           buf == IF x.dpage = pi + 1 /\ ~takeGuard THEN x.buf ELSE Decode(RCells(x.sext), pgs[pi + 1], x.snap)
            off == x.pos % PP
            short == off >= Len(buf)
        IN IF short
@@ -230,25 +248,25 @@ CmpNext(r, lab, pgs, takeGuard) ==
                /\ pguards' = IF takeGuard THEN pguards ELSE pguards - 1
                /\ Log(r, lab, "op", "fold", 0, TRUE, FoldObs(r, x.got))
           ELSE /\ rd' = [rd EXCEPT ![r].got = Append(x.got, buf[off + 1]), ![r].pos = x.pos + 1, ![r].pc = "r_yield", ![r].pgs = pgs,
-                                   ![r].dpage = pi + 1, ![r].buf = buf]
+                                   ![r].dpage = pi + 1, ![r].buf = buf, ![r].sext = x.sext]
                /\ pguards' = IF takeGuard THEN pguards + 1 ELSE pguards
                /\ Log(r, lab, "yield", "fold", 0, FALSE, 0)
 
 RMap(r) ==
   /\ rd[r].pc = "r_map"
-  /\ UNCHANGED <<cells, rlen, pages, pub, w, dev>>
+  /\ UNCHANGED <<old, ext, cells, rlen, pages, pub, w, dev>>
   /\ IF Raw THEN RawNext(r, "mmap:R")
      ELSE /\ rd' = [rd EXCEPT ![r].pc = "r_pages"] /\ UNCHANGED pguards
           /\ Log(r, "mmap:R", "pages:R", "fold", 0, FALSE, 0)
 
 RPages(r) ==
   /\ rd[r].pc = "r_pages"
-  /\ UNCHANGED <<cells, rlen, pages, pub, w, dev>>
+  /\ UNCHANGED <<old, ext, cells, rlen, pages, pub, w, dev>>
   /\ CmpNext(r, "pages:R", pages, TRUE)
 
 RYield(r) ==
   /\ rd[r].pc = "r_yield"
-  /\ UNCHANGED <<cells, rlen, pages, pub, w, dev>>
+  /\ UNCHANGED <<old, ext, cells, rlen, pages, pub, w, dev>>
   /\ IF Raw THEN RawNext(r, "yield") ELSE CmpNext(r, "yield", rd[r].pgs, FALSE)
 
 (***************************************************************************)
@@ -259,7 +277,7 @@ Init ==
         /\ pages = IF Raw THEN <<>> ELSE enc.pages
         /\ rlen = IF Raw THEN PreLen ELSE Len(enc.cells)
   /\ pub = PreLen /\ pguards = 0 /\ w = WIdle /\ rd = [r \in Readers |-> RIdle]
-  /\ dev = {} /\ n = 0 /\ hist = <<>> /\ last = <<>>
+  /\ dev = {} /\ n = 0 /\ hist = <<>> /\ last = <<>> /\ old = <<>> /\ ext = 0
 
 Next == \/ WStart \/ WData \/ WLen \/ CPlan \/ CDecode \/ CData \/ CLen \/ CPages
         \/ \E r \in Readers : RLen(r) \/ RStart(r) \/ RSnap(r) \/ RMap(r) \/ RPages(r) \/ RYield(r)
@@ -277,6 +295,6 @@ Complete == (n > 0 /\ hist[Len(hist)][6] /\ hist[Len(hist)][4] = "fold") =>
               /\ Len(o[4]) = o[2] - o[3]
               /\ \A i \in 1..Len(o[4]) : o[4][i] = o[3] + i
 DepthOK == n <= Depth
-HView == <<cells, rlen, pages, pub, pguards, w, rd, dev, last>>
+HView == <<cells, rlen, pages, pub, pguards, w, rd, dev, last, old, ext>>
 Emit == n > 0 => PrintT(<<"REPLAY", ToJson(hist)>>)
 =============================================================================
